@@ -12,6 +12,8 @@ esac
 cd /verif
 VT_SRC="$W/src" VT_OUT="$W/out" VERIF_SEED="$SEED" ./check "$ID" "$TIER" > "$W/log" 2>&1
 RC=$?
+# KEEP=<dir>: keep the replay files the check wrote for this patched tree (tools/harvest_seed_replays.sh)
+if [ -n "$KEEP" ] && [ -d "$W/out/replays/$ID" ]; then mkdir -p "$KEEP"; cp "$W/out/replays/$ID"/*.json "$KEEP"/ 2>/dev/null; fi
 grep -E "VIOLATION|KNOWN-FINDING|HARNESS-ERROR|seed=" "$W/log" | cut -c1-400 | head -${TAIL:-8}
 echo "mutant $P $ID rc=$RC"
 exit $RC
